@@ -158,7 +158,9 @@ EvalEv ==
                   <<~execd, "C03-eval-after-exec-in-cycle">>,
                   <<r \in Names => ~(flag /\ Broken(r)), "C14-failing-rule-not-reported">>,
                   <<r \in Names => (T.can => Truth(r)), IF r \in Names /\ Broken(r) THEN "C14-failing-rule-candidate" ELSE "C01-candidate-on-false-condition">>,
-                  <<r \in Names => (Truth(r) => T.can), "C02-true-condition-not-candidate">> >>)
+                  <<r \in Names => (Truth(r) => T.can), "C02-true-condition-not-candidate">>,
+                  \* (as C01 puts it: a condition that cannot be evaluated on the current facts does not hold on them)
+                  <<r \in Names => (T.can => ~Broken(r)), "C01-candidate-on-failing-condition">> >>)
      /\ evald' = evald \cup {r}
      /\ cands' = IF T.can THEN cands \cup {r} ELSE cands
      /\ Mark((IF r \in prevCands /\ ~T.can THEN {"C01"} ELSE {})
